@@ -77,11 +77,22 @@ def _viable_tokens(ab, ctx):
 def generate(rng, tier):
     kind = rng.choice([k for k, w in KIND_WEIGHTS for _ in range(w)])
     modes, qkinds = KINDS[kind]
+    if kind == "cfg":
+        qkinds = list(qkinds)
     mode = rng.choice(modes)
     long_cold = rng.random() < (0.06 if tier == "quick" else 0.08) and kind in (
         "earley_prefix", "rescaled", "rescaled_prefix", "earleylm", "rescaledlm", "boollm_earley", "earley")
     if long_cold:
         return _generate_long(rng, tier, kind)
+    multi = None
+    if rng.random() < 0.15:
+        # several objects built from ONE user grammar object (shared grammar-level
+        # caches: cached_property cnf / prefix_grammar / rhs, _trim_cache)
+        pool = ["earley", "earley_prefix", "rescaled", "icky", "earleylm", "rescaledlm", "ckylm",
+                "boollm_earley", "boollm_cky", "cfg"]
+        multi = rng.sample(pool, rng.choice([2, 2, 3]))
+        kind = "multi:" + "+".join(multi)
+        mode = "float"
     ab = gen.grammar(rng, mode, tier, max_rules=8)
     if kind in ("earleylm", "rescaledlm", "ckylm") and rng.random() < 0.5:
         ab["normalize"] = True
@@ -89,7 +100,7 @@ def generate(rng, tier):
 
     sched = draw_schedule(rng, ab, gen, identity=rng.random() < 0.15)
     faults = {"evict": rng.random() < 0.7, "abort": rng.random() < 0.35, "counter": rng.random() < 0.3}
-    is_lm = kind in LM_KINDS
+    is_lm = kind in LM_KINDS or (multi is not None and any(k in LM_KINDS for k in multi))
     T = rng.randint(5, 24 if tier == "quick" else 40)
     P = rng.choice([1, 2, 2, 3, 4])
     particles = [[]]
@@ -111,8 +122,14 @@ def generate(rng, tier):
 
     def query(ctx, q=None):
         nonlocal last_query
+        j = None
+        if multi is not None:
+            j = rng.randrange(len(multi))
+            q = rng.choice(KINDS[multi[j]][1])
         q = q or rng.choice(qkinds)
         op = {"op": "query", "q": q, "ctx": list(ctx), "order_seed": rng.getrandbits(32) | 1}
+        if j is not None:
+            op["obj"] = j
         if q == "p_next_seq":
             ext = []
             c = list(ctx)
@@ -219,8 +236,21 @@ def _generate_long(rng, tier, kind):
 # execution
 
 
+class _Multi:
+    def __init__(self, kinds, objs):
+        self.kinds, self.objs = kinds, objs
+
+    def clear_cache(self):
+        for o in self.objs:
+            if hasattr(o, "clear_cache"):
+                o.clear_cache()
+
+
 def _build(kind, cfg):
     """The shared object of a run / the fresh object of the reference."""
+    if kind.startswith("multi:"):
+        kinds = kind[len("multi:"):].split("+")
+        return _Multi(kinds, [_build(k, cfg) for k in kinds])
     if kind == "earley":
         from genlm.grammar.parse.earley import Earley
         return Earley(cfg)
@@ -297,6 +327,9 @@ def _transform(cfg, t, args, tr):
 
 def _do_query(kind, obj, op, tr, user_cfg):
     """Perform one query on an object; returns the raw library result."""
+    if isinstance(obj, _Multi):
+        j = op.get("obj", 0)
+        return _do_query(obj.kinds[j], obj.objs[j], op, tr, user_cfg)
     q = op["q"]
     ctx = tr(op["ctx"])
     if kind == "cfg":
@@ -539,7 +572,7 @@ def execute(sc):
 
     def reference(op):
         key = digest([op["q"], op["ctx"], op.get("ext"), op.get("n"), op.get("a"), op.get("t"),
-                      op.get("args"), op.get("lm"), op.get("kw")])
+                      op.get("args"), op.get("lm"), op.get("kw"), op.get("obj")])
         if key in ref_cache:
             return ref_cache[key]
         chaos.begin(0, epoch=False)
@@ -697,6 +730,8 @@ def execute(sc):
         if isinstance(ch, dict) and len(ch) < 200:
             states.add(digest([sorted(len(k) for k in ch), op["q"]]))
     out.probe("both_raise", n_both_raise)
+    out.probe("kind_" + kind.split(":")[0])
+    out.probe("mode_" + ab["mode"])
     out.probe("cache_states", len(states))
     out.probes.update({f"chaos_{k}": v for k, v in chaos.stats().items()})
     out.sample = {"kind": kind, "mode": ab["mode"], "grammar": ab["rules"],
